@@ -244,6 +244,9 @@ pub fn run(mut config: Config) -> ::anyhow::Result<()> {
             }
         }
 
-        sleep(Duration::from_secs(5));
+        // Check often: a socket worker using io_uring can take several
+        // seconds to shut down after failing, and a stopped worker should
+        // bring the tracker down within ten seconds
+        sleep(Duration::from_secs(1));
     }
 }
